@@ -116,6 +116,14 @@ DtypeCases(dt) ==
    /\ P(CaseRec("dtypes", "Gather", <<AI("axis", 1)>>, <<X, I64(<<2, 0>>)>>, SemGather(X, I64(<<2, 0>>), <<AI("axis", 1)>>), <<dt>>))
    /\ P(CaseRec("dtypes", "Expand", <<>>, <<Y, I64(<<2, 2, 3>>)>>, SemExpand(Y, I64(<<2, 2, 3>>)), <<dt>>))
 
+\* an axis / permutation entry at the edge of the 64-bit range is out of range for every tensor
+ExtremeAxisCases(shape) ==
+   \A k \in 1..Len(ExtremeI64) : LET e == ExtremeI64[k] X == Iota("f32", shape, 0) r == Len(shape) IN
+      /\ P(CaseRec("concat", "Concat", <<AI("axis", e)>>, <<X, X>>, MustError, <<"invalid", "extreme_axis">>))
+      /\ P(CaseRec("gather", "Gather", <<AI("axis", e)>>, <<X, T("i64", <<1>>, <<0>>)>>, MustError, <<"invalid", "extreme_axis">>))
+      /\ P(CaseRec("gather", "Gather", <<>>, <<X, T("i64", <<1>>, <<e>>)>>, MustError, <<"invalid", "extreme_index">>))
+      /\ P(CaseRec("transpose", "Transpose", <<AIs("perm", [i \in 1..r |-> IF i = r THEN e ELSE Fin(i - 1)])>>, <<X>>, MustError, <<"invalid", "extreme_perm">>))
+
 Init ==
    \/ ("dtypes" \in Fams /\ st \in [fam : {"dtypes"}, dt : AllDTypes, done : {FALSE}])
    \/ ("transpose" \in Fams /\ st \in [fam : {"transpose"}, shape : DataShapes(1..4), done : {FALSE}])
@@ -128,7 +136,7 @@ Init ==
 
 Emit ==
    /\ ~st.done
-   /\ CASE st.fam = "transpose" -> TransposeCases(st.shape)
+   /\ CASE st.fam = "transpose" -> TransposeCases(st.shape) /\ (Len(st.shape) <= 2 /\ st.shape[1] = 2 => ExtremeAxisCases(st.shape))
         [] st.fam = "concat"    -> (st.axis \in (-Len(st.shape) - 1)..Len(st.shape) => ConcatCases(st.shape, st.axis))
         [] st.fam = "slice"     -> SliceCases(st.shape)
         [] st.fam = "slicepair" -> SlicePairCases(st.shape)
